@@ -128,11 +128,187 @@ static void family_lin(std::vector<hm::Scenario>& out, unsigned oracles) {
     }
 }
 
+static Op mk(OpKind k, const std::string& key, int gen = 1) {
+    Op o;
+    o.kind = k;
+    o.key = key;
+    o.gen = gen;
+    return o;
+}
+static Op mkscan(const std::string& l, scan_endpoint le, const std::string& r, scan_endpoint re, std::size_t max, bool r2l, bool nv) {
+    Op o;
+    o.kind = SCAN;
+    o.key = l;
+    o.le = le;
+    o.rkey = r;
+    o.re = re;
+    o.max = max;
+    o.r2l = r2l;
+    o.want_nv = nv;
+    return o;
+}
+static std::set<std::string> initial_keys(const ykc::Shape& sh) {
+    std::set<std::string> init(sh.inserts.begin(), sh.inserts.end());
+    for (auto& r : sh.removes) init.erase(r);
+    return init;
+}
+
+// writer operations that matter for a scanner on this shape: insert / update / remove on every palette key
+static std::vector<Op> writer_ops(const ykc::Shape& sh) {
+    std::vector<Op> w;
+    auto init = initial_keys(sh);
+    for (auto& k : pal_keys(sh)) {
+        w.push_back(mk(PUT, k, 2));
+        if (init.count(k) != 0) w.push_back(mk(REMOVE, k));
+    }
+    return w;
+}
+
+static void family_scanc(std::vector<hm::Scenario>& out, unsigned oracles, bool with_nv, const char* fam) {
+    auto shapes = ykc::all_shapes();
+    const std::vector<std::string> use = {"B3", "B15", "I2_8_8", "I2_1_8", "I3_8_1_8", "I2_8_15", "L1one", "L1_3", "L1full", "L1I2_1_8", "L2", "EMPTYROOT"};
+    const std::set<std::string> quick_shapes = {"B3", "B15", "I3_8_1_8", "L1one", "L1full", "L1I2_1_8", "I2_8_15"};
+    for (auto& sn : use) {
+        const ykc::Shape* sh = ykc::find_shape(shapes, sn);
+        auto init = initial_keys(*sh);
+        std::vector<Op> scans;
+        scans.push_back(mkscan("", scan_endpoint::INF, "", scan_endpoint::INF, 0, false, with_nv));
+        if (!init.empty()) {
+            // bounded: from the second key to the last but one (inclusive / exclusive mix)
+            std::vector<std::string> ks(init.begin(), init.end());
+            const std::string& lo = ks.size() > 2 ? ks[1] : ks.front();
+            const std::string& hi = ks.size() > 2 ? ks[ks.size() - 2] : ks.back();
+            if (lo < hi) scans.push_back(mkscan(lo, scan_endpoint::INCLUSIVE, hi, scan_endpoint::EXCLUSIVE, 0, false, with_nv));
+        }
+        scans.push_back(mkscan("", scan_endpoint::INF, "", scan_endpoint::INF, 2, false, with_nv));
+        if (!with_nv) scans.push_back(mkscan("", scan_endpoint::INF, "", scan_endpoint::INF, 1, true, false));
+        auto wops = writer_ops(*sh);
+        if (with_nv) {
+            // phantom: only inserts of absent keys matter, add keys landing in every node
+            wops.clear();
+            std::set<std::string> cand;
+            for (auto& k : pal_keys(*sh)) {
+                if (init.count(k) == 0) cand.insert(k);
+            }
+            for (auto& k : init) {
+                if (k.size() <= 3) cand.insert(k + "5");
+            }
+            cand.insert("00");
+            cand.insert("zzz");
+            std::size_t n = 0;
+            for (auto& k : cand) {
+                if (init.count(k) != 0) continue;
+                if (cand.size() > 8 && (n++ % (cand.size() / 8 + 1)) != 0 && sh->pal.count("new") != 0 && k != sh->pal.at("new")) continue;
+                wops.push_back(mk(UPUT, k, 2));
+            }
+        }
+        for (std::size_t si = 0; si < scans.size(); ++si) {
+            for (auto& w : wops) {
+                bool quick = quick_shapes.count(sn) != 0 && (si == 0 || si == 2 || si == 3);
+                add(out, fam, *sh, {{scans[si]}, {w}}, oracles, quick, 2, 3);
+            }
+        }
+        // two writers / two writes, full scan only
+        for (std::size_t a = 0; a < wops.size(); ++a) {
+            for (std::size_t b = a + 1; b < wops.size(); ++b) {
+                if (wops[a].key == wops[b].key && wops[a].kind == wops[b].kind) continue;
+                add(out, fam, *sh, {{scans[0]}, {wops[a], wops[b]}}, oracles, false, 2, 2);
+                add(out, fam, *sh, {{scans[0]}, {wops[a]}, {wops[b]}}, oracles, false, 2, 2);
+            }
+        }
+    }
+}
+
+// structural writers only: splits, node removal, collapse, layer root replacement racing each other
+static void family_struct(std::vector<hm::Scenario>& out, unsigned oracles, const char* fam, bool with_reader) {
+    auto shapes = ykc::all_shapes();
+    shapes.push_back(ykc::shape_ifull());
+    struct Pick { const char* shape; std::vector<std::vector<Op>> progs; bool quick; };
+    std::vector<Pick> picks;
+    auto P = [&](const char* s, std::vector<std::vector<Op>> p, bool q) { picks.push_back({s, std::move(p), q}); };
+    // I3_8_1_8: remove the only key of the middle node (unlink: node -> prev -> parent) vs split of prev / of next
+    P("I3_8_1_8", {{mk(REMOVE, "09")}, {mk(PUT, "085", 2)}}, true);
+    P("I3_8_1_8", {{mk(REMOVE, "09")}, {mk(PUT, "10", 2)}}, true);
+    P("I3_8_1_8", {{mk(REMOVE, "09")}, {mk(REMOVE, "08")}}, true);
+    P("I3_8_1_8", {{mk(REMOVE, "09")}, {mk(REMOVE, "17")}}, true);
+    P("I3_8_1_8", {{mk(REMOVE, "09"), mk(PUT, "09", 2)}, {mk(PUT, "095", 2)}}, false);
+    P("I3_8_1_8", {{mk(REMOVE, "09")}, {mk(PUT, "085", 2)}, {mk(REMOVE, "17")}}, false);
+    // I2_1_8 / I2_8_1: removing the single key collapses the interior root (promotion) while the sibling changes
+    P("I2_1_8", {{mk(REMOVE, "08")}, {mk(PUT, "085", 2)}}, true);
+    P("I2_1_8", {{mk(REMOVE, "08")}, {mk(REMOVE, "09")}}, true);
+    P("I2_1_8", {{mk(REMOVE, "08")}, {mk(PUT, "07", 2)}}, true);
+    P("I2_8_1", {{mk(REMOVE, "09")}, {mk(PUT, "10", 2)}}, true);
+    P("I2_8_1", {{mk(REMOVE, "09")}, {mk(PUT, "085", 2)}}, true);
+    P("I2_8_1", {{mk(REMOVE, "09"), mk(PUT, "09", 2)}, {mk(REMOVE, "08"), mk(PUT, "095", 2)}}, false);
+    // I2_8_15: split of the right node vs operations on the left node
+    P("I2_8_15", {{mk(PUT, "24", 2)}, {mk(PUT, "155", 2)}}, true);
+    P("I2_8_15", {{mk(PUT, "24", 2)}, {mk(REMOVE, "09")}}, true);
+    P("I2_8_15", {{mk(PUT, "24", 2)}, {mk(PUT, "085", 2)}}, false);
+    // B15: two inserts that both want to split the root border
+    P("B15", {{mk(PUT, "16", 1)}, {mk(PUT, "075", 2)}}, true);
+    P("B15", {{mk(PUT, "16", 1)}, {mk(PUT, "00", 2)}}, true);
+    P("B15", {{mk(PUT, "16", 1)}, {mk(REMOVE, "15")}}, true);
+    // layer root replacement / collapse inside the parent border
+    P("L1full", {{mk(PUT, ykc::P8() + "16", 1)}, {mk(PUT, ykc::P8() + "075", 2)}}, true);
+    P("L1full", {{mk(PUT, ykc::P8() + "16", 1)}, {mk(PUT, "20", 2)}}, true);
+    P("L1full", {{mk(PUT, ykc::P8() + "16", 1)}, {mk(REMOVE, "10")}}, true);
+    P("L1I2_1_8", {{mk(REMOVE, ykc::P8() + "08")}, {mk(PUT, ykc::P8() + "085", 2)}}, true);
+    P("L1I2_1_8", {{mk(REMOVE, ykc::P8() + "08")}, {mk(REMOVE, ykc::P8() + "09")}}, true);
+    P("L1I2_1_8", {{mk(REMOVE, ykc::P8() + "08")}, {mk(PUT, "20", 2)}}, true);
+    P("L1one", {{mk(REMOVE, ykc::P8() + "a")}, {mk(PUT, ykc::P8() + "b", 2)}}, true);
+    P("L1one", {{mk(REMOVE, ykc::P8() + "a")}, {mk(PUT, ykc::P8() + "a", 2)}}, true);
+    P("L1one", {{mk(REMOVE, ykc::P8() + "a")}, {mk(REMOVE, "10")}}, true);
+    // root emptied and revived
+    P("B1", {{mk(REMOVE, "10")}, {mk(PUT, "20", 2)}}, true);
+    P("B1", {{mk(REMOVE, "10")}, {mk(PUT, "10", 2)}}, true);
+    P("EMPTYROOT", {{mk(PUT, "10", 1)}, {mk(PUT, "20", 2)}}, true);
+    P("NOROOT", {{mk(PUT, "10", 1)}, {mk(PUT, "20", 2)}}, true);
+    P("NOROOT", {{mk(PUT, "10", 1)}, {mk(PUT, "10", 2)}}, true);
+    P("NOROOT", {{mk(PUT, "10", 1)}, {mk(PUT, "20", 2)}, {mk(PUT, ykc::P8() + "a", 2)}}, false);
+    // cascading: interior root with 16 children, rightmost border full
+    P("IFULL", {{mk(PUT, "136", 1)}, {mk(PUT, "0645", 2)}}, false);
+    P("IFULL", {{mk(PUT, "136", 1)}, {mk(REMOVE, "064")}}, false);
+    for (auto& p : picks) {
+        const ykc::Shape* sh = ykc::find_shape(shapes, p.shape);
+        if (sh == nullptr) continue;
+        auto progs = p.progs;
+        if (with_reader) {
+            // one optimistic reader spinning on dirty versions: a get of a key in the touched node and a full scan
+            std::string rk = progs[0][0].key;
+            auto pg = progs;
+            pg.push_back({mk(GET, rk)});
+            add(out, fam, *sh, pg, oracles, p.quick && progs.size() == 2 && progs[0].size() == 1, 2, 2);
+            auto ps = progs;
+            ps.push_back({mkscan("", scan_endpoint::INF, "", scan_endpoint::INF, 0, false, false)});
+            add(out, fam, *sh, ps, oracles, false, 2, 2);
+        }
+        add(out, fam, *sh, progs, oracles, p.quick, 2, 3);
+    }
+}
+
+// every single operation alone: a lone thread must never wait
+static void family_alone(std::vector<hm::Scenario>& out, unsigned oracles, const char* fam) {
+    auto shapes = ykc::all_shapes();
+    for (auto& sh : shapes) {
+        for (auto& k : pal_keys(sh)) {
+            for (OpKind kd : {GET, PUT, UPUT, REMOVE}) add(out, fam, sh, {{mk(kd, k)}}, oracles, true, 0, 0);
+        }
+        add(out, fam, sh, {{mkscan("", scan_endpoint::INF, "", scan_endpoint::INF, 0, false, true)}}, oracles, true, 0, 0);
+    }
+}
+
 int main(int argc, char** argv) {
     hm::Args a = hm::parse(argc, argv);
     std::string family = a.extra.empty() ? "lin" : a.extra[0];
     unsigned oracles = oracle_mask(a.oracle);
     std::vector<hm::Scenario> sc;
     if (family == "lin") family_lin(sc, oracles);
+    if (family == "scanc") family_scanc(sc, oracles, false, "scanc");
+    if (family == "phantom") family_scanc(sc, oracles, true, "phantom");
+    if (family == "struct") family_struct(sc, oracles, "struct", false);
+    if (family == "locks") {
+        family_struct(sc, oracles, "locks", true);
+        family_alone(sc, oracles, "alone");
+    }
     return hm::run_main("h_tree", sc, a);
 }
